@@ -473,7 +473,7 @@ var goOp = map[string]string{"PLUS": "+", "MINUS": "-", "MULT": "*", "DIV": "/",
 	"LESS": "<", "GREATER": ">", "LESSEQ": "<=", "GREATEREQ": ">="}
 
 // expectedEvalTerm is the documented meaning of a cell, written in the term language of the partial evaluator.
-func expectedEvalTerm(l, op, resT string, coercedNumberRow bool) []string {
+func expectedEvalTerm(l, op, resT string, coercedNumberRow bool, rt string) []string {
 	acc := map[string]string{"PTSTRING": "getString", "PTNUMBER": "getNumber", "PTBOOLEAN": "getBoolean"}[l]
 	if coercedNumberRow {
 		acc = "getNumber"
@@ -486,7 +486,14 @@ func expectedEvalTerm(l, op, resT string, coercedNumberRow bool) []string {
 		return []string{fmt.Sprintf("[!%s(L)] -> %s{%s(R)} ; [%s(L)] -> %s{true}", acc, ctor, acc, acc, ctor)}
 	}
 	if l == "PTBOOLEAN" && (op == "LESS" || op == "GREATER" || op == "LESSEQ" || op == "GREATEREQ") {
-		acc = "getNumber" // booleans are ordered through the documented bool->number coercion
+		// booleans are ordered as 0 and 1 (the documented bool->number coercion); the right operand is coerced to the left
+		// operand's type first, so what is ordered is its truth value, not its number: true < 2 is true < true
+		want := []string{fmt.Sprintf("[!getBoolean(R)] -> %s{(getNumber(L) %s 0)} ; [getBoolean(R)] -> %s{(getNumber(L) %s 1)}", ctor, goOp[op], ctor, goOp[op])}
+		if rt == "PTBOOLEAN" {
+			// for a right operand that is a boolean its number is its truth value
+			want = append(want, fmt.Sprintf("%s{(getNumber(L) %s getNumber(R))}", ctor, goOp[op]))
+		}
+		return want
 	}
 	return []string{fmt.Sprintf("%s{(%s(L) %s %s(R))}", ctor, acc, goOp[op], acc)}
 }
@@ -528,7 +535,7 @@ func ruleEvaluatorTable(c *Ctx, rule string) {
 					continue
 				}
 				table[l+"|"+op+"|"+rt] = cell.Term
-				want := expectedEvalTerm(l, op, ptOf[row.Res], coerced)
+				want := expectedEvalTerm(l, op, ptOf[row.Res], coerced, rt)
 				match := false
 				for _, w := range want {
 					if cell.Term == w {
